@@ -157,7 +157,14 @@ Section Elab.
                     match fd_typ f with
                     | FPrim k => Some (SPrim k)
                     | FStruct t => match elab_struct fuel' t with
-                                   | Some fl => Some (SStruct t fl) | None => None end
+                                   | Some fl => Some (SStruct t fl)
+                                   | None => Some (SDyn t 0 DNil)
+                                     (* a nested structure type without a descriptor (unknown tag name, unsupported field
+                                        type): the library finds out only when a value reaches the field - getStructDesc
+                                        fails in isZeroValue / encodeValue / decodeValue.  A dynamic position without cases
+                                        behaves the same: any value fails to encode (its type has no entry in T), a field
+                                        that is present fails to decode, an absent optional one is skipped. *)
+                                   end
                     | FDyn =>
                         match find_dispatch ty dispatch with
                         | None => Some (SDyn ty 0 DNil)   (* no DynamicDispatch: every decode of the field fails *)
